@@ -554,4 +554,117 @@ def readResponses : List Bytes → Bytes → Stream
       ⟨p :: s.msgs, s.stop⟩
     | e => ⟨[], some (stopOf e)⟩
 
+/-! ### the relay: what `martian.Proxy.handle` + `http.Transport` / `Request.write` send to the origin,
+and what `Response.Write` sends back to the client
+
+`handle` reads the request with `http.ReadRequest`, sets `URL.Scheme` / `URL.Host`, and (no-op
+modifiers) hands it to `Transport.RoundTrip`, which serialises it with `Request.write(w,
+usingProxy = false)`: origin-form target, `Host`, `User-Agent`, then `transferWriter.writeHeader`
+(`Connection: close`, `Content-Length` / `Transfer-Encoding`, `Trailer`), then the other fields.
+The response comes from `http.ReadResponse`; `handle` sets `res.Close` when either side or the
+proxy asked to close and calls `res.Write`.
+
+Out of model (`none`): targets with bytes outside unreserved / sub-delims / `:@/%?` (the `net/url`
+round trip may re-escape them), requests without any host, responses with a status below 200 (the
+transport swallows 1xx; `%03d` and `Itoa` disagree below 100). -/
+
+def postTok : Bytes := strBytes "POST"
+def putTok : Bytes := strBytes "PUT"
+def patchTok : Bytes := strBytes "PATCH"
+def defaultUA : Bytes := strBytes "Go-http-client/1.1"
+
+def isSafeTargetByte (c : UInt8) : Bool :=
+  isAlnum c || (strBytes "-._~!$&'()*+,;=:@/%?").contains c
+
+/-- `URL.RequestURI()` of a parsed request target in the modelled domain. -/
+def originForm (u : Bytes) : Bytes :=
+  if u == [42] || u.head? == some 47 then u
+  else
+    let afterScheme := if httpScheme.isPrefixOf u then u.drop httpScheme.length else u.drop httpsScheme.length
+    let r := afterScheme.dropWhile fun c => c != 47 && c != 63
+    if r.isEmpty then [47] else if r.head? == some 63 then 47 :: r else r
+
+def isTokenBoundary (c : UInt8) : Bool := c == 32 || c == 44 || c == 9
+
+/-- `http.hasToken(v, token)` for a lower-case ASCII token. -/
+def hasTokenFrom (prevBoundary : Bool) (v tok : Bytes) : Bool :=
+  match v with
+  | [] => false
+  | c :: r =>
+    (prevBoundary && tok.length ≤ v.length && toLower (v.take tok.length) == tok &&
+      (match v.drop tok.length with | [] => true | d :: _ => isTokenBoundary d))
+    || hasTokenFrom (isTokenBoundary c) r tok
+
+def hasToken (v tok : Bytes) : Bool := !tok.isEmpty && hasTokenFrom true v tok
+
+/-- `headerNewlineToSpace` then `textproto.TrimString`. -/
+def cleanValue (v : Bytes) : Bytes := trimLWS (v.map fun c => if c == 10 || c == 13 then 32 else c)
+
+def connCloseField (close : Bool) (hdr : List KV) : List KV :=
+  if close && !hasToken ((vals hdr connKey).headD []) closeTok then [(connKey, closeTok)] else []
+
+def trailerField (chunked : Bool) (decl : Option (List Bytes)) : List KV :=
+  match decl with
+  | some ks => if chunked && !ks.isEmpty then [(trailerKey, join (sortedKeys ks) [44])] else []
+  | none => []
+
+/-- A relayed message: the message to serialise and whether its body is suppressed. -/
+structure Relayed where
+  msg : Msg
+  noBody : Bool
+  deriving DecidableEq, Repr
+
+/-- `transferWriter.writeBody` with a nil body (answer to HEAD) still ends a chunked message: the
+trailer fields and one CRLF follow the head. -/
+def Relayed.wire (x : Relayed) : Bytes :=
+  if x.noBody then
+    headSection x.msg ++
+      (if isChunked x.msg.te then fields (sortKV (x.msg.trailer.getD [])) ++ crlf else [])
+  else MessageView.wire x.msg
+
+/-- The request as the origin receives it. -/
+def relayRequest (p : Parsed) : Option Relayed :=
+  let m := p.msg
+  if !m.url.all isSafeTargetByte || m.host.isEmpty then none else
+  let ua : List KV :=
+    match vals m.hdr uaKey with
+    | [] => [(uaKey, defaultUA)]
+    | v :: _ => if (cleanValue v).isEmpty then [] else [(uaKey, cleanValue v)]
+  let chunked := isChunked m.te
+  -- outgoingLength: http.NoBody counts as 0; shouldSendContentLength
+  let sendCL := !chunked && (m.cl > 0 || (m.cl == 0 && (m.method == postTok || m.method == putTok || m.method == patchTok)))
+  let others := m.hdr.filter fun kv => !([hostKey, uaKey, clKey, teKey, trailerKey].contains kv.1)
+  some { msg := { m with url := originForm m.url, major := 1, minor := 1,
+                         te := if chunked then [chunkedTok] else [],
+                         cl := if sendCL then m.cl else -1,
+                         hdr := ua ++ connCloseField p.close m.hdr ++ trailerField chunked p.decl ++ others,
+                         trailer := if chunked && p.decl.isSome then m.trailer else none },
+         noBody := false }
+
+/-- `Response.Write`'s status text: `Status` without its leading "code ". -/
+def statusText (code3 status : Bytes) : Bytes :=
+  if (code3 ++ [32]).isPrefixOf status then status.drop 4 else status
+
+/-- The response as the client receives it; `reqMethod` is the request's method, `closing` is
+`req.Close || p.Closing()`. -/
+def relayResponse (reqMethod : Bytes) (closing : Bool) (p : Parsed) : Option Relayed :=
+  let m := p.msg
+  if m.code < 200 then none else
+  let code3 := codeOf m.status
+  let head := reqMethod == headTok
+  let chunked := isChunked m.te
+  let atLeast11 := m.major > 1 || (m.major == 1 && m.minor ≥ 1)
+  -- handle(): res.Close = true when anybody asked; Response.Write: unknown length without chunking closes
+  let close := p.close || closing || (m.cl == -1 && !chunked && atLeast11)
+  let sendCL := !chunked && (m.cl > 0 ||
+    (m.cl == 0 && (reqMethod == postTok || reqMethod == putTok || reqMethod == patchTok || bodyAllowedForStatus m.code)))
+  let others := m.hdr.filter fun kv => !([clKey, teKey, trailerKey].contains kv.1)
+  some { msg := { m with status := code3 ++ [32] ++ statusText code3 m.status,
+                         te := if chunked then [chunkedTok] else [],
+                         cl := if sendCL then m.cl else -1,
+                         hdr := connCloseField close m.hdr ++ trailerField chunked p.decl ++ others,
+                         body := if head then some [] else m.body,
+                         trailer := if chunked && p.decl.isSome then m.trailer else none },
+         noBody := head }
+
 end Martian.Http1
